@@ -587,7 +587,6 @@ func vfH_limit_history() {
 	vfReach("limit-history-end")
 }
 
-
 // vfH_violation_after_message (C04.H2): a complete message is delivered
 // intact, then a frame of each violation class fails the read; nothing of the
 // violating frame is delivered or dispatched; a 1002 close goes out (except for
